@@ -5451,7 +5451,7 @@ class CiscoRange(UserList):
         retval = set(self.data)
         if result_type == "auto":
             if len(self.data) > 0:
-                result_type = type(self.as_list[0])
+                result_type = type(self.as_list()[0])
                 return set([result_type(ii) for ii in retval])
             else:
                 return list()
